@@ -549,7 +549,7 @@ func (in *Interp) stmt(st *state, s ast.Stmt, fr *frame, k func(*state)) {
 					nv = vInt(old.I - 1)
 				}
 			}
-			st.env.vals[obj] = nv
+			st.env.vals[in.key(x.X)] = nv
 			ev.RVal = nv
 		}
 		st.emit(ev)
@@ -722,6 +722,7 @@ func (in *Interp) havoc(st *state, n ast.Node) {
 		delete(st.env.vals, o)
 		delete(st.env.defs, o)
 		delete(st.env.links, o)
+		in.invalidate(st, o)
 	}
 }
 
@@ -1210,7 +1211,7 @@ func (in *Interp) eval(st *state, e ast.Expr) Val {
 		}
 	case *ast.SelectorExpr:
 		if o := in.objOf(x); o != nil {
-			if v, ok := st.env.vals[o]; ok {
+			if v, ok := in.lookup(st, in.key(x)); ok {
 				return v
 			}
 			return in.globalVal(o)
@@ -1618,7 +1619,7 @@ func (in *Interp) refine(s *state, e ast.Expr, outcome bool) {
 	case *ast.Ident, *ast.SelectorExpr:
 		if o := in.objOf(x.(ast.Expr)); o != nil {
 			v = o
-			s.env.vals[o] = vBool(outcome)
+			s.env.vals[in.key(x.(ast.Expr))] = vBool(outcome)
 			if l, ok := s.env.links[o]; ok {
 				if outcome {
 					s.env.vals[l.target] = Val{K: VNonNil}
@@ -1638,14 +1639,16 @@ func (in *Interp) refine(s *state, e ast.Expr, outcome bool) {
 		}
 		_ = other
 		o := in.objOf(side)
+		ko := in.key(side)
 		isLen := false
 		if c, ok := ast.Unparen(side).(*ast.CallExpr); ok {
 			if bi, ok := in.callee(s, c).(*types.Builtin); ok && bi.Name() == "len" && len(c.Args) == 1 {
 				o = in.objOf(c.Args[0])
+				ko = in.key(c.Args[0])
 				isLen = true
 			}
 		}
-		if o != nil {
+		if o != nil && ko != nil {
 			v = o
 			op := x.Op
 			if side == x.Y {
@@ -1656,10 +1659,10 @@ func (in *Interp) refine(s *state, e ast.Expr, outcome bool) {
 			case otherV.K == VNil && (op == token.EQL || op == token.NEQ):
 				isNil := (op == token.EQL) == truth
 				if isNil {
-					s.env.vals[o] = Val{K: VNil}
+					s.env.vals[ko] = Val{K: VNil}
 					nilness = -1
 				} else {
-					s.env.vals[o] = Val{K: VNonNil}
+					s.env.vals[ko] = Val{K: VNonNil}
 					nilness = 1
 				}
 			case isLen && otherV.K == VInt:
@@ -1667,25 +1670,25 @@ func (in *Interp) refine(s *state, e ast.Expr, outcome bool) {
 				if r, ok := cmpPos(op, otherV.I); ok {
 					// the comparison is decided for positive lengths; the fork tells us which side we are on
 					if r.B == truth {
-						s.env.vals[o] = Val{K: VNonEmpty}
+						s.env.vals[ko] = Val{K: VNonEmpty}
 					} else {
-						s.env.vals[o] = Val{K: VEmpty}
+						s.env.vals[ko] = Val{K: VEmpty}
 					}
 				} else if cmpInts(op, 0, otherV.I) != truth {
-					s.env.vals[o] = Val{K: VNonEmpty}
+					s.env.vals[ko] = Val{K: VNonEmpty}
 				}
 			case otherV.K == VEmpty && (op == token.EQL || op == token.NEQ):
 				if (op == token.EQL) == truth {
-					s.env.vals[o] = Val{K: VEmpty}
+					s.env.vals[ko] = Val{K: VEmpty}
 				} else {
-					s.env.vals[o] = Val{K: VNonEmpty}
+					s.env.vals[ko] = Val{K: VNonEmpty}
 				}
 			case otherV.K == VInt && op == token.EQL && truth:
-				s.env.vals[o] = otherV
+				s.env.vals[ko] = otherV
 			case otherV.K == VInt && op == token.NEQ && !truth:
-				s.env.vals[o] = otherV
+				s.env.vals[ko] = otherV
 			case (otherV.K == VSym || otherV.K == VStr) && ((op == token.EQL && truth) || (op == token.NEQ && !truth)):
-				s.env.vals[o] = otherV
+				s.env.vals[ko] = otherV
 			}
 		}
 	}
@@ -1721,10 +1724,12 @@ func (in *Interp) assign(st *state, lhs, rhs []ast.Expr, tok token.Token, node a
 						nv = vInt(old.I - add.I)
 					}
 				}
-				if nv.Known() {
-					st.env.vals[o] = nv
-				} else {
-					delete(st.env.vals, o)
+				if ko := in.key(l); ko != nil {
+					if nv.Known() {
+						st.env.vals[ko] = nv
+					} else {
+						delete(st.env.vals, ko)
+					}
 				}
 				ev.RVal = nv
 			}
@@ -1843,10 +1848,15 @@ func (in *Interp) bind(st *state, l, r ast.Expr, v Val, node ast.Node, def *Even
 	ev := &Event{Kind: EvAssign, Pos: node.Pos(), Node: node, LHS: l, RHS: r, LObj: o, RVal: v}
 	if o != nil {
 		if _, isIndex := ast.Unparen(l).(*ast.IndexExpr); !isIndex {
+			ko := in.key(l)
+			if ko == nil {
+				ko = o
+			}
+			in.invalidate(st, ko)
 			if v.Known() {
-				st.env.vals[o] = v
+				st.env.vals[ko] = v
 			} else {
-				delete(st.env.vals, o)
+				delete(st.env.vals, ko)
 			}
 			delete(st.env.links, o)
 			delete(st.env.typs, o)
@@ -1913,7 +1923,7 @@ func (in *Interp) callStmt(st *state, call *ast.CallExpr, fr *frame, k func(*sta
 				n := f.Type().(*types.Signature).Results().Len()
 				vals = make([]Val, n)
 				if n >= 1 {
-					vals[0] = in.evalCall(st, call)
+					vals[0] = in.eval(st, call)
 				}
 			}
 		}
@@ -2104,16 +2114,16 @@ func (in *Interp) mergeIf(st *state, x *ast.IfStmt) {
 						r = y.Rhs[i]
 					}
 					st.emit(&Event{Kind: EvAssign, Pos: y.Pos(), Node: y, LHS: l, RHS: r, LObj: o, Conditional: true})
-					if o != nil {
-						delete(st.env.vals, o)
+					if ko := in.key(l); ko != nil {
+						delete(st.env.vals, ko)
 					}
 					in.access(st, l, true)
 				}
 			case *ast.IncDecStmt:
 				o := in.objOf(y.X)
 				st.emit(&Event{Kind: EvAssign, Pos: y.Pos(), Node: y, LHS: y.X, LObj: o, Conditional: true})
-				if o != nil {
-					delete(st.env.vals, o)
+				if ko := in.key(y.X); ko != nil {
+					delete(st.env.vals, ko)
 				}
 			}
 		}
@@ -2122,5 +2132,80 @@ func (in *Interp) mergeIf(st *state, x *ast.IfStmt) {
 	emit(x.Body.List)
 	if e, ok := x.Else.(*ast.BlockStmt); ok {
 		emit(e.List)
+	}
+}
+
+// ------------------------------------------------------------------ path-sensitive field keys
+//
+// The environment keys of selector expressions are synthetic objects per (base key, field), so that
+// child.values and node.values are distinct facts; a valuation given for the plain field object is the
+// instance-insensitive default that every path key falls back to.
+
+type pathKey struct{ base, field types.Object }
+
+func (p *Program) synth(base, field types.Object) *types.Var {
+	if p.keyTab == nil {
+		p.keyTab = map[pathKey]*types.Var{}
+		p.keyInfo = map[types.Object]pathKey{}
+	}
+	k := pathKey{base, field}
+	if v, ok := p.keyTab[k]; ok {
+		return v
+	}
+	v := types.NewVar(field.Pos(), field.Pkg(), base.Name()+"."+field.Name(), field.Type())
+	p.keyTab[k] = v
+	p.keyInfo[v] = k
+	return v
+}
+
+// key returns the environment key of an expression (nil when it has none).
+func (in *Interp) key(e ast.Expr) types.Object {
+	switch x := ast.Unparen(e).(type) {
+	case *ast.Ident:
+		return in.objOf(x)
+	case *ast.StarExpr:
+		return in.key(x.X)
+	case *ast.SelectorExpr:
+		o := in.objOf(x)
+		if o == nil {
+			return nil
+		}
+		if f, ok := o.(*types.Var); ok && f.IsField() {
+			if b := in.key(x.X); b != nil {
+				return in.P.synth(b, f)
+			}
+		}
+		return o
+	}
+	return nil
+}
+
+// lookup reads the value of key k with fall-back to the plain field valuation.
+func (in *Interp) lookup(st *state, k types.Object) (Val, bool) {
+	if k == nil {
+		return unknown, false
+	}
+	if v, ok := st.env.vals[k]; ok {
+		return v, true
+	}
+	if pk, ok := in.P.keyInfo[k]; ok {
+		if v, ok := st.env.vals[pk.field]; ok {
+			return v, true
+		}
+	}
+	return unknown, false
+}
+
+// invalidate forgets every path fact rooted at (or through) object o, or about field o.
+func (in *Interp) invalidate(st *state, o types.Object) {
+	for k := range st.env.vals {
+		pk, ok := in.P.keyInfo[k]
+		for ok {
+			if pk.base == o || pk.field == o {
+				delete(st.env.vals, k)
+				break
+			}
+			pk, ok = in.P.keyInfo[pk.base]
+		}
 	}
 }
